@@ -27,7 +27,7 @@ META = {
     "exhaustive_tiers": {"quick": {"histories of length <= 2 over 11 operations x 13 configurations": True},
                          "thorough": {"histories of length <= 3 over 11 ops + length 4 over 6 state-touching ops x 13 configurations": True}},
 }
-META["added"] = 'Added: in-memory forecasts without n_cat (13 configurations), spatial_counts(cartesian=True) as a twelfth operation, empty-first catalog layouts.'
+META["added"] = "Added: in-memory forecasts without n_cat (13 configurations), spatial_counts(cartesian=True) as a twelfth operation, empty-first catalog layouts. in-memory catalogs that only declare the forecast's filter statements."
 MANIFEST = {
     "technique": "sequential history log on a live CatalogForecast checked op-by-op against a reference model (filtered catalog list) and, for evaluations, against a fresh forecast; quiescent-state invariant after each complete operation; exhaustive short histories + random long ones",
     "level_text": "All operation histories up to length 2 (quick) / 3-4 (thorough) over the 11 public operations are enumerated on 13 source/filter configurations; each step's observable result (pass stream, event counts, n_cat, expected rates, marginals, the six evaluations) must equal the single-pass reference regardless of what was called before, and the iterator must be back in its initial state after every complete operation.",
@@ -117,7 +117,17 @@ def build(fc, cfg, tmpdir):
     kw = {"region": reg, "apply_filters": bool(cfg["filters"] or cfg["spatial"]), "filter_spatial": bool(cfg["spatial"]),
           "filters": ["magnitude >= %r" % MIN_MAG] if cfg["filters"] else [], "name": "cf"}
     if cfg["source"].startswith("memory"):
-        cats = [CSEPCatalog(data=list(evs), catalog_id=i, region=reg) for i, evs in enumerate(fc["cats"])]
+        cats = []
+        for i, evs in enumerate(fc["cats"]):
+            if kw["filters"] and i % 3 == 1:
+                # the catalog only DECLARES the forecast's filter statements (constructor argument); nothing has been applied to it
+                c = CSEPCatalog(data=list(evs), catalog_id=i, region=reg, filters=list(kw["filters"]))
+            else:
+                c = CSEPCatalog(data=list(evs), catalog_id=i, region=reg)
+                if kw["filters"] and i % 3 == 2:
+                    # history: the user looked at a filtered copy before (in_place=False leaves this catalog itself unfiltered)
+                    c.filter(list(kw["filters"]), in_place=False)
+            cats.append(c)
         if cfg["source"] == "memory":
             kw["n_cat"] = len(cats)
         f = CatalogForecast(catalogs=cats, **kw)
